@@ -377,7 +377,7 @@ def g7(F, rep):
     if sw is None:
         return
     adt = F.adts.get(SD + "BlockChunk")
-    prods = err.result_producers(b)
+    prods = err.result_producers(b, F)
     n = 0
     for v in adt["variants"]:
         if v["name"] == "Literal":
